@@ -10,6 +10,7 @@ string/shape layer of the driver.
 import Nitime.Model.C19
 import Nitime.Lemmas.C19Lin
 import Nitime.Lemmas.C19Elim
+import Nitime.Lemmas.C19Pinv
 import Mathlib.Tactic.IntervalCases
 import Mathlib.Tactic.NormNum
 
@@ -973,6 +974,244 @@ theorem analyzer_reads_fresh (kind : String) (j : Job) (ws : List String) :
     (readsC (getterValue kind j) [] ws).1 = ws.map (getterValue kind j) :=
   read_order_irrelevant _ ws
 
+/-! ### amplitude scale: the estimators are homogeneous per channel, for EVERY factor -/
+
+theorem solvesNormal_smul {n p : ℕ} {X : ℕ → ℕ → ℤ} {y v : ℕ → ℚ} (a : ℚ)
+    (h : SolvesNormal n p X y v) : SolvesNormal n p X (fun r => a * y r) (fun b => a * v b) := by
+  intro b hb
+  have e := h b hb
+  have l1 : ∀ (f g : ℕ → ℚ) (m : ℕ), ∑ i ∈ range m, f i * (a * g i) = a * ∑ i ∈ range m, f i * g i := by
+    intro f g m; rw [Finset.mul_sum]; apply Finset.sum_congr rfl; intro i _; ring
+  rw [l1, l1, e]
+
+theorem getD_of_lt (l : List ℚ) (c : ℕ) (h : c < l.length) : l.getD c 0 = l[c] := by
+  simp [List.getD_eq_getElem?_getD, h]
+
+theorem list_eq_of_getD {l1 l2 : List ℚ} (p : ℕ) (h1 : l1.length = p) (h2 : l2.length = p)
+    (h : ∀ c < p, l1.getD c 0 = l2.getD c 0) : l1 = l2 := by
+  apply List.ext_getElem (by rw [h1, h2])
+  intro i hi1 hi2
+  have := h i (by omega)
+  rwa [getD_of_lt _ _ hi1, getD_of_lt _ _ hi2] at this
+
+/-- **fir_smul** (the executable `firSolve`, what `algorithms.fir` is modelled by): on a full-column-rank
+design `fir(X, a·y) = a·fir(X, y)` as LISTS, for every factor `a` — 1e-11 and 1e-300 included; there
+is no amplitude below which the estimate is anything but the scaled estimate -/
+theorem fir_smul {n p : ℕ} {X : ℕ → ℕ → ℤ} (y : ℕ → ℚ) (a : ℚ) (hrank : FullColumnRank n p X) :
+    firSolve n p X (fun r => a * y r) = (firSolve n p X y).map (List.map (a * ·)) := by
+  obtain ⟨x, hx⟩ := Option.isSome_iff_exists.mp (firSolve_total y hrank)
+  obtain ⟨x', hx'⟩ := Option.isSome_iff_exists.mp (firSolve_total (fun r => a * y r) hrank)
+  rw [hx, hx', Option.map_some]
+  congr 1
+  apply list_eq_of_getD p (elimSolve_length _ _ _ hx') (by rw [List.length_map]; exact elimSolve_length _ _ _ hx)
+  intro c hc
+  have hlen : c < x.length := by rw [elimSolve_length _ _ _ hx]; exact hc
+  have e : (x.map (a * ·)).getD c 0 = a * x.getD c 0 := by
+    rw [getD_of_lt _ _ (by rw [List.length_map]; exact hlen), getD_of_lt _ _ hlen, List.getElem_map]
+  rw [e]
+  exact solves_unique hrank (firSolve_solves hx') (solvesNormal_smul a (firSolve_solves hx)) c hc
+
+/-- `fir_smul` for one channel of the analyzer (`firChannel`, what the driver runs per channel): scaling the
+channel's data by `a` scales the channel's coefficient list by `a` (error branches unchanged) -/
+theorem firChannel_smul (cur : Bool) (nPad : ℕ) (evPad : ℕ → ℤ) (data : ℕ → ℚ) (off L : ℕ) (a : ℚ)
+    (hrank : FullColumnRank nPad
+      ((eventTypes ((List.range nPad).map (rollFn nPad off evPad))).length * L)
+      (designEntry cur (rollFn nPad off evPad) (eventTypes ((List.range nPad).map (rollFn nPad off evPad))) L)) :
+    firChannel cur nPad evPad (fun i => a * data i) off L
+      = (firChannel cur nPad evPad data off L).map (List.map (a * ·)) := by
+  unfold firChannel
+  simp only []
+  split
+  · rfl
+  · rw [fir_smul data a hrank]
+    cases firSolve nPad ((eventTypes ((List.range nPad).map (rollFn nPad off evPad))).length * L)
+      (designEntry cur (rollFn nPad off evPad) (eventTypes ((List.range nPad).map (rollFn nPad off evPad))) L) data <;> rfl
+
+theorem planted_smul (n : ℕ) (ev : ℕ → ℤ) (resp : ℤ → ℕ → ℚ) (off L p : ℕ) (a : ℚ) :
+    planted n ev (fun t j => a * resp t j) off L p = a * planted n ev resp off L p := by
+  unfold planted
+  rw [sumRange_eq, sumRange_eq, Finset.mul_sum]
+  apply Finset.sum_congr rfl
+  intro k _
+  split <;> ring
+
+theorem padFn_smul (o N : ℕ) (x : ℕ → ℚ) (a : ℚ) (p : ℕ) :
+    padFn 0 o N (fun i => a * x i) p = a * padFn 0 o N x p := by
+  unfold padFn; split <;> ring
+
+/-- **no flat-channel shortcut**: the planted recording multiplied by ANY `a` (overlaps allowed, any
+offset, full rank) gives, per channel, exactly `a ·` the planted responses by sorted code — so for
+`a ≠ 0` a non-zero response sample is never estimated as 0, however small `a` is -/
+theorem firChannel_scaled_recovers (o N L : ℕ) (ev : ℕ → ℤ) (resp : ℤ → ℕ → ℚ) (a : ℚ) (hL : 0 < L)
+    (hdom : ∀ k < N, ev k ≠ 0 → k + o + L ≤ N)
+    (hrank : FullColumnRank (o + N + L)
+      ((eventTypes ((List.range (o + N + L)).map (rollFn (o + N + L) o (padFn 0 o N ev)))).length * L)
+      (designEntry false (rollFn (o + N + L) o (padFn 0 o N ev))
+        (eventTypes ((List.range (o + N + L)).map (rollFn (o + N + L) o (padFn 0 o N ev)))) L)) :
+    ∃ x, firChannel false (o + N + L) (padFn 0 o N ev)
+          (padFn 0 o N (fun i => a * planted N ev resp o L i)) o L = .ok x ∧
+      ∀ c < (eventTypes ((List.range (o + N + L)).map (rollFn (o + N + L) o (padFn 0 o N ev)))).length * L,
+        x.getD c 0
+          = a * resp ((eventTypes ((List.range (o + N + L)).map (rollFn (o + N + L) o (padFn 0 o N ev)))).getD (c / L) 0)
+              (c % L) ∧
+        (a ≠ 0 → resp ((eventTypes ((List.range (o + N + L)).map (rollFn (o + N + L) o (padFn 0 o N ev)))).getD (c / L) 0)
+              (c % L) ≠ 0 → x.getD c 0 ≠ 0) := by
+  obtain ⟨x, hx, hval⟩ := firChannel_returns o N L ev (fun t j => a * resp t j) hL hdom hrank
+  have e : (fun i => a * planted N ev resp o L i) = planted N ev (fun t j => a * resp t j) o L := by
+    funext i; rw [planted_smul]
+  refine ⟨x, by rw [e]; exact hx, fun c hc => ⟨hval c hc, fun ha hr => ?_⟩⟩
+  rw [hval c hc]
+  exact mul_ne_zero ha hr
+
+/-- the event-triggered average is homogeneous in the data -/
+theorem eta_smul (cb : Bool) (x : ℕ → ℚ) (a : ℚ) (idx : List ℕ) (off j : ℕ) :
+    etaRow cb (fun p => a * x p) idx off j = a * etaRow cb x idx off j := by
+  have h := eta_linear cb x (fun _ => 0) a idx off j
+  have z : etaRow cb (fun _ => (0 : ℚ)) idx off j = 0 := by
+    unfold etaRow meanOver trig
+    cases cb <;> simp
+  simpa [z] using h
+
+/-- the squared standard error scales with `a²` (so the standard error with `|a|`) -/
+theorem semSq_smul (cb : Bool) (x : ℕ → ℚ) (a : ℚ) (idx : List ℕ) (off j : ℕ) :
+    semSqRow cb (fun p => a * x p) idx off j = a * a * semSqRow cb x idx off j := by
+  unfold semSqRow
+  simp only []
+  rw [eta_smul]
+  have h : ∀ k, trig cb (fun p => a * x p) off j k = a * trig cb x off j k := by
+    intro k; unfold trig; split <;> ring
+  have e : (idx.map fun k => (trig cb (fun p => a * x p) off j k - a * etaRow cb x idx off j)
+        * (trig cb (fun p => a * x p) off j k - a * etaRow cb x idx off j))
+      = idx.map fun k => a * a * ((trig cb x off j k - etaRow cb x idx off j)
+        * (trig cb x off j k - etaRow cb x idx off j)) := by
+    apply List.map_congr_left; intro k _; rw [h]; ring
+  rw [e, List.sum_map_mul_left]
+  ring
+
+/-- Events-input branch: the average is homogeneous too -/
+theorem etaZ_smul (cb : Bool) (N : ℕ) (x : ℕ → ℚ) (a : ℚ) (idx : List ℤ) (off : ℤ) (j : ℕ) :
+    etaRowZ cb N (fun p => a * x p) idx off j = a * etaRowZ cb N x idx off j := by
+  unfold etaRowZ
+  have h : ∀ k, trigZ cb N (fun p => a * x p) off j k = a * trigZ cb N x off j k := by
+    intro k; unfold trigZ dataZ; split <;> split <;> (try split) <;> ring
+  rw [funext h, List.sum_map_mul_left]
+  ring
+
+/-! ### per-channel gains on a multi-channel recording (channel ch × g ch; e.g. g = (1, 1e-11)) -/
+
+/-- the job with channel `ch` of the recording multiplied by `g ch` (events untouched) -/
+def scaleJob (g : ℕ → ℚ) (j : Job) : Job :=
+  { j with data := Array.ofFn (n := j.data.size) fun i => g (i.val / j.N) * j.data[i] }
+
+theorem dataOf_scaleJob (g : ℕ → ℚ) (j : Job) (ch : ℕ) :
+    dataOf (scaleJob g j) ch = fun p => g ch * dataOf j ch p := by
+  funext p
+  unfold dataOf padFn scaleJob
+  simp only []
+  split
+  · rename_i hc
+    unfold getR
+    by_cases hs : ch * j.N + (p - j.off.toNat) < j.data.size
+    · have hdiv : (ch * j.N + (p - j.off.toNat)) / j.N = ch := by
+        have hN : 0 < j.N := by omega
+        rw [Nat.mul_comm, Nat.mul_add_div hN, Nat.div_eq_of_lt (by omega), Nat.add_zero]
+      simp [Array.getD, hs, hdiv]
+    · simp [Array.getD, hs]
+  · ring
+
+/-- **mixed amplitudes in one recording**: with channel ch multiplied by `g ch`, every channel's FIR
+coefficient list is `g ch ·` that channel's list — channel by channel, whatever the other channels'
+gains are (event types, padding and design are those of the unscaled job) -/
+theorem firChannel_scaleJob (cur : Bool) (g : ℕ → ℚ) (j : Job) (ch : ℕ)
+    (hrank : ChannelFullRank cur j ch) :
+    firChannel cur (nPadOf (scaleJob g j)) (evOf (scaleJob g j) ch) (dataOf (scaleJob g j) ch)
+        (scaleJob g j).off.toNat (scaleJob g j).L
+      = (firChannel cur (nPadOf j) (evOf j ch) (dataOf j ch) j.off.toNat j.L).map (List.map (g ch * ·)) := by
+  rw [dataOf_scaleJob]
+  exact firChannel_smul cur (nPadOf j) (evOf j ch) (dataOf j ch) j.off.toNat j.L (g ch) hrank
+
+/-- eta / ets per channel under per-channel gains -/
+theorem eta_scaleJob (g : ℕ → ℚ) (j : Job) (ch : ℕ) (idx : List ℕ) (jj : ℕ) :
+    etaRow j.cb (dataOf (scaleJob g j) ch) idx j.off.toNat jj = g ch * etaRow j.cb (dataOf j ch) idx j.off.toNat jj ∧
+    semSqRow j.cb (dataOf (scaleJob g j) ch) idx j.off.toNat jj
+      = g ch * g ch * semSqRow j.cb (dataOf j ch) idx j.off.toNat jj := by
+  rw [dataOf_scaleJob]
+  exact ⟨eta_smul _ _ _ _ _ _, semSq_smul _ _ _ _ _ _⟩
+
+/-! ### `algorithms.fir` = pinv(XᵀX)·Xᵀ·y, as matrices -/
+
+open Matrix in
+/-- the first p columns / n rows of the design as a matrix over ℚ -/
+def designMat (n p : ℕ) (X : ℕ → ℕ → ℤ) : Matrix (Fin n) (Fin p) ℚ := fun r c => (X r c : ℚ)
+
+theorem designMat_injective {n p : ℕ} {X : ℕ → ℕ → ℤ} (hrank : FullColumnRank n p X) :
+    Function.Injective (designMat n p X).mulVec := by
+  intro v w hvw
+  set d : ℕ → ℚ := fun c => if h : c < p then v ⟨c, h⟩ - w ⟨c, h⟩ else 0 with hd
+  have hz := hrank d (by
+    intro r hr
+    have e := congr_fun hvw ⟨r, hr⟩
+    simp only [Matrix.mulVec, dotProduct, designMat] at e
+    rw [← Fin.sum_univ_eq_sum_range (fun c => (X r c : ℚ) * d c) p]
+    have : ∀ c : Fin p, (X r c : ℚ) * d c = (X r c : ℚ) * v c - (X r c : ℚ) * w c := by
+      intro c; simp only [hd, c.isLt, dif_pos, Fin.eta]; ring
+    rw [Finset.sum_congr rfl (fun c _ => this c), Finset.sum_sub_distrib, e, sub_self])
+  funext c
+  have := hz c c.isLt
+  simp only [hd, c.isLt, dif_pos, Fin.eta] at this
+  linarith
+
+theorem solvesNormal_matrix {n p : ℕ} {X : ℕ → ℕ → ℤ} {y v : ℕ → ℚ} (h : SolvesNormal n p X y v) :
+    ((designMat n p X).transpose * designMat n p X).mulVec (fun c : Fin p => v c)
+      = (designMat n p X).transpose.mulVec (fun r : Fin n => y r) := by
+  funext a
+  have e := h a a.isLt
+  simp only [Matrix.mulVec, dotProduct, Matrix.mul_apply, Matrix.transpose_apply, designMat]
+  rw [Fin.sum_univ_eq_sum_range (fun b => (∑ r : Fin n, (X r a : ℚ) * (X r b : ℚ)) * v b) p,
+    Fin.sum_univ_eq_sum_range (fun r => (X r a : ℚ) * y r) n, ← e]
+  apply Finset.sum_congr rfl
+  intro b _
+  rw [Fin.sum_univ_eq_sum_range (fun r => (X r a : ℚ) * (X r b : ℚ)) n]
+
+/-- **the model's `fir` IS the pseudo-inverse formula** (any number of event types × response length `p`,
+any data `y`, not only planted): on a full-column-rank design `XᵀX` is invertible, every matrix `P` with
+`(XᵀX) P (XᵀX) = XᵀX` — in particular every Moore–Penrose pseudo-inverse, e.g. `scipy.linalg.pinv(XᵀX)` —
+equals `(XᵀX)⁻¹`, and `P·Xᵀ·y` is coefficient by coefficient what the executable `firSolve` returns -/
+theorem firSolve_eq_pinv {n p : ℕ} {X : ℕ → ℕ → ℤ} (y : ℕ → ℚ) (hrank : FullColumnRank n p X)
+    (P : Matrix (Fin p) (Fin p) ℚ)
+    (hP : ((designMat n p X).transpose * designMat n p X) * P * ((designMat n p X).transpose * designMat n p X)
+            = (designMat n p X).transpose * designMat n p X) :
+    ∃ x, firSolve n p X y = some x ∧ x.length = p ∧
+      (P * (designMat n p X).transpose).mulVec (fun r : Fin n => y r) = fun c : Fin p => x.getD c 0 := by
+  obtain ⟨x, hx⟩ := Option.isSome_iff_exists.mp (firSolve_total y hrank)
+  refine ⟨x, hx, elimSolve_length _ _ _ hx, ?_⟩
+  exact Pinv.pinv_fir_eq_of_normal (designMat n p X) P (designMat_injective hrank) hP _ _
+    (solvesNormal_matrix (firSolve_solves hx))
+
+/-- the same over ℝ, the field numpy/LAPACK's `pinv` works in: for every REAL matrix `P` satisfying the
+first Penrose equation for the real Gram matrix, `P·Xᵀ·y` (y read in ℝ) is the model's rational result -/
+theorem firSolve_eq_pinv_real {n p : ℕ} {X : ℕ → ℕ → ℤ} (y : ℕ → ℚ) (hrank : FullColumnRank n p X)
+    (P : Matrix (Fin p) (Fin p) ℝ)
+    (hP : (((designMat n p X).map (Rat.castHom ℝ)).transpose * (designMat n p X).map (Rat.castHom ℝ)) * P
+            * (((designMat n p X).map (Rat.castHom ℝ)).transpose * (designMat n p X).map (Rat.castHom ℝ))
+          = ((designMat n p X).map (Rat.castHom ℝ)).transpose * (designMat n p X).map (Rat.castHom ℝ)) :
+    ∃ x, firSolve n p X y = some x ∧
+      (P * ((designMat n p X).map (Rat.castHom ℝ)).transpose).mulVec (fun r : Fin n => ((y r : ℚ) : ℝ))
+        = fun c : Fin p => ((x.getD c 0 : ℚ) : ℝ) := by
+  obtain ⟨x, hx⟩ := Option.isSome_iff_exists.mp (firSolve_total y hrank)
+  exact ⟨x, hx, Pinv.pinv_fir_real_of_rat_normal (designMat n p X) (designMat_injective hrank) P hP _ _
+    (solvesNormal_matrix (firSolve_solves hx))⟩
+
+/-- **planted recovery through pinv** (the task's statement, for the model's designs): y = X·h on the rows,
+full column rank ⇒ pinv(XᵀX)·Xᵀ·y = h -/
+theorem pinv_recovers_planted {n p : ℕ} {X : ℕ → ℕ → ℤ} {y h : ℕ → ℚ}
+    (hy : ∀ r < n, y r = ∑ c ∈ range p, (X r c : ℚ) * h c) (hrank : FullColumnRank n p X)
+    (P : Matrix (Fin p) (Fin p) ℚ)
+    (hP : Pinv.IsPenrose ((designMat n p X).transpose * designMat n p X) P) :
+    (P * (designMat n p X).transpose).mulVec (fun r : Fin n => y r) = fun c : Fin p => h c :=
+  Pinv.pinv_fir_eq_of_normal (designMat n p X) P (designMat_injective hrank) hP.apa _ _
+    (solvesNormal_matrix (planted_solves hy))
+
 /-! ### non-vacuity: a concrete overlapping two-type design (codes 1 and -2, L = 2) meeting every
 hypothesis of the FIR theorems, and a separated one for the averaging theorems.  (`firSolve` itself
 is run on these very designs by the driver on every check: `fixed_specs` in harness/c19.py.) -/
@@ -1000,6 +1239,18 @@ theorem fullRank_A : FullColumnRank 6 4 (designEntry false evA [-2, 1] 2) := by
   simp [Finset.sum_range_succ, designEntry, sgn, evA] at h0 h1 h2 h4
   rw [h4] at h1
   interval_cases c <;> simp_all
+
+/-- instances of the scale / pseudo-inverse theorems on the overlapping design A: homogeneity for every
+factor, and a Moore–Penrose pseudo-inverse of its Gram matrix exists (the inverse), so
+`pinv_recovers_planted` is not vacuous -/
+example (y : ℕ → ℚ) (a : ℚ) :
+    firSolve 6 4 (designEntry false evA [-2, 1] 2) (fun r => a * y r)
+      = (firSolve 6 4 (designEntry false evA [-2, 1] 2) y).map (List.map (a * ·)) :=
+  fir_smul y a fullRank_A
+example : Pinv.IsPenrose
+    ((designMat 6 4 (designEntry false evA [-2, 1] 2)).transpose * designMat 6 4 (designEntry false evA [-2, 1] 2))
+    ((designMat 6 4 (designEntry false evA [-2, 1] 2)).transpose * designMat 6 4 (designEntry false evA [-2, 1] 2))⁻¹ :=
+  Pinv.isPenrose_inv (Pinv.gram_isUnit_det _ (designMat_injective fullRank_A))
 
 /-- a design that is NOT separated can still be full rank (so `fir_exact_recovery` really covers overlaps) -/
 example : ¬ Separated 6 evA 2 := by
